@@ -262,11 +262,15 @@ class DataTypeBuilder(_parser.StatementStreamProcessor):
         for visitor in self._definition_visitors:
             visitor.on_definition(self._definition, target_definition)
 
+        # The output of the print directives of the dependency shall be attributed to the dependency itself.
+        bind = getattr(self._print_output_handler, "bind", None)
+        print_output_handler = bind(target_definition.file_path) if callable(bind) else self._print_output_handler
+
         # Recursion is cool.
         dt = target_definition.read(
             lookup_definitions=self._lookup_definitions,
             definition_visitors=self._definition_visitors,
-            print_output_handler=self._print_output_handler,
+            print_output_handler=print_output_handler,
             allow_unregulated_fixed_port_id=self._allow_unregulated_fixed_port_id,
         )
         return dt
